@@ -1086,6 +1086,63 @@ fn run_join(c: &JoinChunk, obs: &mut Obs) -> CheckResult {
     Ok(())
 }
 
+//------------ every octet -------------------------------------------------------
+
+/// One octet value at every kind of position of a few URIs and join arguments (the
+/// complete set of 256 values: a character class is a table with 256 entries).
+#[derive(Clone, Debug, Serialize, Deserialize)]
+pub struct OctetCase {
+    pub octet: u8,
+}
+
+fn run_octet(c: &OctetCase, obs: &mut Obs) -> CheckResult {
+    let b = c.octet;
+    let mut accepted = 0u64;
+    let mut evals = 0u64;
+    for scheme in ["rsync", "https", "RsYnc", "HTTPS"] {
+        // (prefix, suffix) pairs around the octet: authority start / inside / end, module start /
+        // inside / end, path segment start / inside / end, end of the URI, a segment of its own
+        let spots: [(&str, &str); 12] = [
+            ("://", "host.example/mod/dir/file.cer"),
+            ("://ho", "st.example/mod/dir/file.cer"),
+            ("://host.example", "/mod/dir/file.cer"),
+            ("://host.example/", "mod/dir/file.cer"),
+            ("://host.example/mo", "d/dir/file.cer"),
+            ("://host.example/mod", "/dir/file.cer"),
+            ("://host.example/mod/", "dir/file.cer"),
+            ("://host.example/mod/di", "r/file.cer"),
+            ("://host.example/mod/dir", "/file.cer"),
+            ("://host.example/mod/dir/file.cer", ""),
+            ("://host.example/mod/dir/", "/file.cer"),
+            ("://host.example/mod/", ""),
+        ];
+        for (pre, post) in spots {
+            let mut s = scheme.as_bytes().to_vec();
+            s.extend_from_slice(pre.as_bytes());
+            s.push(b);
+            s.extend_from_slice(post.as_bytes());
+            let (r, h) = check_string(&s)?;
+            evals += 1;
+            accepted += (r.is_some() || h.is_some()) as u64;
+        }
+    }
+    // as part of a join argument
+    let rb = REntry::new("rsync://host.example/mod/dir/")?;
+    let hb = HEntry::new("https://host.example/dir/")?;
+    for (pre, post) in [("", ""), ("", "x"), ("x", ""), ("x", "y/z"), ("x/", "/z"), ("x/y", "")] {
+        let mut a = pre.as_bytes().to_vec();
+        a.push(b);
+        a.extend_from_slice(post.as_bytes());
+        accepted += join_rsync(&rb, &a)? as u64;
+        accepted += join_https(&hb, &a)? as u64;
+        evals += 2;
+    }
+    obs.evals(evals.saturating_sub(1));
+    obs.bulk_nontrivial = accepted;
+    obs.label(if forbidden(b) { "forbidden-octet" } else { "permitted-octet" });
+    Ok(())
+}
+
 //------------ random -----------------------------------------------------------
 
 #[derive(Clone, Debug, Serialize, Deserialize)]
@@ -1371,6 +1428,7 @@ pub fn property() -> Property {
             EnumSub { name: "pairs", count: count_pairs, make: make_pairs, run: run_pairs, exhaustive: true }.boxed(),
             EnumSub { name: "triples", count: count_triples, make: make_triples, run: run_triples, exhaustive: true }.boxed(),
             EnumSub { name: "join", count: count_join, make: make_join, run: run_join, exhaustive: true }.boxed(),
+            EnumSub { name: "octets", count: |_, _| 256, make: |_, _, i| OctetCase { octet: i as u8 }, run: run_octet, exhaustive: true }.boxed(),
             PropSub {
                 name: "random",
                 strategy: rand_strategy,
